@@ -188,4 +188,13 @@ PROPS = {
          'with the raw regex-lite answers shipped in the case so that the wrapper logic is compared exactly; relaw: the property\'s cross-function relations evaluated on the builtins (is_match vs find, capture shape/length, replace limit via match spans, escaped literals vs contains/count/replace, invalid patterns)',
     trusted=['regex-lite is not modelled: theorems are relative to the stated engine laws (LawfulEngine, ReplacenSplices, LiteralLaw), which relaw samples as tests of the library'],
  ),
+ 'C15': dict(
+    modules=['SlacProps.C15'], builds=['default', 'zero'],
+    streams=[dict(name='call:length,at,copy,insert,find,count,contains,replace,remove,reverse,unique,all,any,split,split_csv,trim,trim_left,trim_right,lowercase,uppercase,same_text', gen='call:length,at,copy,insert,find,count,contains,replace,remove,reverse,unique,all,any,split,split_csv,trim,trim_left,trim_right,lowercase,uppercase,same_text', build=b, n=n(250, 10000), oracle='none', laws=['no_crash']) for b in ('default', 'zero')] +
+            [dict(name='poslaw', build=b, n=n(30000, 1000000), model=False, oracle='none', laws=['ok']) for b in ('default', 'zero')],
+    rule='call: the 21 collection/string builtins x generated argument lists in both index-base builds: strings from ASCII / multi-byte / combining / astral / empty pools, heterogeneous and nested arrays, needles that are substrings, empty, overlapping (aa in aaa); '
+         'positions and counts at first-1, first, last, last+1, 0, fractional, huge, NaN; answers compared with the sequence model. poslaw: at-enumeration, copy(s, find(s,x), length(x)) = x, failed find = first-1, array laws — evaluated on the builtins themselves',
+    trusted=[FLOAT_TB, 'LawfulIdx: small integers are exact in binary64 (hypothesis of the position theorems; toy instance proves it satisfiable; tied by the num stream)',
+             'Unicode case mapping / White_Space from Rust std tables'],
+ ),
 }
